@@ -290,7 +290,7 @@ def timelines():
 
 
 OPS = {
-    "delay": [{"d": 10}, {"d": 25}], "delay_subscription": [{"d": 10}, {"d": 30}], "timestamp": [{}], "time_interval": [{}],
+    "delay": [{"d": 10}, {"d": 25}, {"d": 10, "feedback": True}], "delay_subscription": [{"d": 10}, {"d": 30}], "timestamp": [{}], "time_interval": [{}],
     "debounce": [{"d": 10}, {"d": 20}, {"d": 15}], "throttle_first": [{"d": 10}, {"d": 20}, {"d": 25}], "sample": [{"d": 20}, {"d": 15}],
     "take_with_time": [{"d": 20}, {"d": 25}, {"d": 0}, {"d": 20, "cold": True}], "skip_with_time": [{"d": 20}, {"d": 25}, {"d": 0}, {"d": 20, "cold": True}],
     "take_until_with_time": [{"d": 20, "abs": False}, {"d": 20, "abs": True}, {"d": 35, "abs": True}, {"d": 20, "abs": False, "cold": True}, {"d": 20, "abs": True, "cold": True}],
@@ -307,7 +307,37 @@ FILES = {"delay": "_delay.py", "delay_subscription": "_delaysubscription.py", "t
          "throttle_with_mapper": "_debounce.py::throttle_with_mapper_", "timeout_with_mapper": "_timeoutwithmapper.py", "delay_with_mapper": "_delaywithmapper.py"}
 
 
+def run_feedback(op, par):
+    """re-entrancy: the consumer reacts to the FIRST delivered element by failing the source (a Subject) from inside on_next, while
+    a second element due in the same instant is still pending: delay drops it and forwards the error at once"""
+    import reactivex.operators as ops
+    from reactivex.subject import Subject
+    from reactivex.testing import TestScheduler
+    s = TestScheduler()
+    subj = Subject()
+    out = []
+    d = par["d"]
+
+    def on_next(v):
+        out.append((int(s.clock), "N", v))
+        if len(out) == 1:
+            subj.on_error(ValueError("feedback"))
+    subj.pipe(ops.delay(d)).subscribe(on_next, lambda e: out.append((int(s.clock), "E", None)), lambda: out.append((int(s.clock), "C", None)), scheduler=s)
+    s.schedule_absolute(210, lambda *_: (subj.on_next("a"), subj.on_next("b")))
+    s.schedule_absolute(990, lambda *_: s.stop())
+    s.start()
+    return out, [(210 + d, "N", "a"), (210 + d, "E", None)]
+
+
 def check(op, tl, par):
+    if par.get("feedback"):
+        if tl:
+            return None  # one scenario per parameter set (run with the empty timeline)
+        try:
+            got, want = run_feedback(op, par)
+        except Exception as e:  # noqa: BLE001
+            return {"what": f"escaped: {type(e).__name__}: {e}"}
+        return None if got == want else {"what": "re-entrant error while the drain delivers a batch due in one instant", "got": got, "expected": want}
     try:
         got = run_real(op, tl, par)
     except Exception as e:  # noqa: BLE001
@@ -360,7 +390,7 @@ def main(argv):
         if op in skip:
             continue
         for par in OPS[op]:
-            if resub and (par.get("abs") or par.get("sd") is not None or op == "timestamp"):
+            if resub and (par.get("abs") or par.get("sd") is not None or op == "timestamp" or par.get("feedback")):
                 continue  # absolute instants / clock readings / hot-only variants do not shift with the subscription
             for tl in timelines():
                 n += 1
